@@ -172,8 +172,8 @@ def run(ctx):
                 # getattr-style dynamic access to the bookkeeping fields
                 if isinstance(n, ast.Call) and isinstance(n.func, ast.Name) and n.func.id in ('getattr', 'setattr', 'vars') :
                     ob.require(False, 'dynamic attribute access (%s) defeats the effect analysis' % ast.unparse(n), '%s:%d' % (fi.module.relpath, n.lineno))
-        if n_children < 3:
-            ob.undecided('the bookkeeping field `children` was not found (%d occurrences; 3 confirmed by hand)' % n_children)
+        if n_children < 2:
+            ob.undecided('the bookkeeping field `children` was not found (%d occurrences; at least its initialisation and one append are expected)' % n_children)
     with ctx.obligation('C13.NOGLOBAL', 'global / cached state', None, 'btc_hd_wallet/') as ob:
         # positive control: the rule must recognise the constructs it forbids
         sample = ast.parse(PLANTED)
